@@ -132,10 +132,10 @@ class Verifier:
             self.handlers[key] = self.make_handler(c)
 
     # ------------------------------------------------------------------ predicates
-    def pred(self, ex: Exec, c: Contract, fname: str, values: dict, path: Path):
+    def pred(self, ex: Exec, c: Contract, fname: str, values: dict, path: Path, assumptions_out=None):
         """z3 Bool for contract predicate `fname` applied to `values` (names -> V) under `path`."""
         fnode = c.funcs[fname]
-        return self.pred_node(ex, c.module, fnode, values, path)
+        return self.pred_node(ex, c.module, fnode, values, path, assumptions_out)
 
     def pred_node(self, ex, module, fnode, values, path, assumptions_out=None):
         sub = Exec(self.repo, module, self.handlers, ex.inline, ex.mode, False, ex.feas_timeout_ms, ex.bg,
@@ -187,7 +187,20 @@ class Verifier:
             if not ex.feasible(p.cond):
                 return []
             ctx = tuple(ex.index_ctx)
-            if ctx:
+            pure_terms = None
+            if c.attrs.get("pure"):
+                # a pure function: its result is a *function* of the arguments (same arguments, same result)
+                from .sym import flatten_terms
+                pure_terms = []
+                for nm in sorted(values):
+                    f_ = flatten_terms(values[nm])
+                    if f_ is None:
+                        pure_terms = None
+                        break
+                    pure_terms += f_
+            if pure_terms is not None:
+                ctx, suffix = tuple(pure_terms), "@pure"
+            elif ctx:
                 suffix = f"@{getattr(node, 'lineno', 0)}_{getattr(node, 'col_offset', 0)}#{'_'.join(map(str, ex.loop_tag))}"
             else:
                 suffix = fresh_name("")
@@ -202,13 +215,15 @@ class Verifier:
                 tagv = arg.fields.get("type") if isinstance(arg, Obj) else None
                 if isinstance(tagv, Str) and tagv.concrete and tagv.c in c.result_switch[1]:
                     rspec = c.result_switch[1][tagv.c]
-            res = sb.make(rspec, "res_" + c.name) if rspec else NONE
+            res = sb.make(rspec, "res_" + c.name + ("_" + rspec.replace(":", "_").replace(".", "_")[-24:] if pure_terms is not None else "")) if rspec else NONE
             for w in sb.wf:
                 ex.bg.append(w)
             if "ensures" in c.funcs:
                 vals = dict(values)
                 vals["result"] = res
-                p = p.assume(ver.pred(ex, c, "ensures", vals, p))
+                extra = []  # postconditions of pure functions the callee's spec itself mentions
+                post = ver.pred(ex, c, "ensures", vals, p, assumptions_out=extra)
+                p = p.assume(*extra, post)
             return [(p, res)]
 
         return handler
@@ -319,11 +334,12 @@ class Verifier:
                 if "ensures" in c.funcs:
                     vals = dict(values)
                     vals["result"] = res
-                    goal = self.pred(ex, c, "ensures", vals, Path(o.cond))
+                    spec_assumed = []  # postconditions of (verified, pure) functions the spec itself calls
+                    goal = self.pred(ex, c, "ensures", vals, Path(o.cond), assumptions_out=spec_assumed)
                     parts = _conjuncts(goal)
                     for j, part in enumerate(parts):
                         sfx = f".{j}" if len(parts) > 1 else ""
-                        obls.append(Obligation(f"{base}/post@L{o.line}#{k}{sfx}", "post", list(ex.bg) + o.cond + [z3.Not(part)],
+                        obls.append(Obligation(f"{base}/post@L{o.line}#{k}{sfx}", "post", list(ex.bg) + o.cond + spec_assumed + [z3.Not(part)],
                                                inputs=inputs, result=res, meta=dict(contract=cname, line=o.line, mode=c.mode)))
                 obls.append(Obligation(f"{base}/cover-return@L{o.line}#{k}", "cover", list(ex.bg) + o.cond, expect="sat",
                                        inputs=inputs, meta=dict(contract=cname, line=o.line)))
